@@ -116,7 +116,7 @@ def kindOf : Op → Kind
   | .bxor => .arith "^"
   | .shiftLeft => .arith "<<"
   | .shiftRight => .arith ">>"
-  | .shiftRightUnsigned => .arith ">>>"
+  | .shiftRightUnsigned => .arith ">>"   -- vm_bitopu( >>): the macro stringifies its operator, so the method is :>> as well
   | .greaterThan => .rel
   | .lessThan => .rel
   | .greaterThanEqual => .rel
